@@ -45,6 +45,23 @@ theorem Reach.inv {σ α : Type} {M : LTS σ α} {s0 : σ} (Inv : σ → Prop) (
   | init => exact h0
   | next _ hstep ih => exact hs _ _ _ ih hstep
 
+/-- The same system under a scheduling policy that may only *disable* steps (fairness rules,
+writer preference of `sync.RWMutex`, wake-up order of a semaphore …). -/
+def LTS.restrict {σ α : Type} (M : LTS σ α) (policy : σ → α → Bool) : LTS σ α :=
+  ⟨fun s a => if policy s a then M.step s a else none⟩
+
+/-- Every state reachable under a policy is reachable without it: safety theorems proved for the
+unrestricted system hold under every such policy. -/
+theorem Reach.of_restrict {σ α : Type} {M : LTS σ α} {policy : σ → α → Bool} {s0 s : σ}
+    (h : Reach (M.restrict policy) s0 s) : Reach M s0 s := by
+  induction h with
+  | init => exact Reach.init
+  | next _ hstep ih =>
+    simp only [LTS.restrict] at hstep
+    split at hstep
+    · exact Reach.next ih hstep
+    · simp at hstep
+
 /-- Execute a list of labels; `none` if one of them is not enabled. -/
 def LTS.run {σ α : Type} (M : LTS σ α) (s : σ) : List α → Option σ
   | [] => some s
